@@ -42,3 +42,12 @@ package destination
 //@     invariant[rep]   b.rep() && b.buf == old(b.buf) && b.wr == old(b.wr)
 //@     invariant[split] 0 <= nn && nn + len(p) == len(old(p)) && p.arr == old(p).arr && p.off == old(p).off + nn
 //@     invariant[view]  b.view() == old(b.view()) ++ old(p)[0:nn][..]
+
+// ---------------------------------------------------------------- destination.go: the per-destination filter (C01, C03, C18)
+// The filter is read and replaced as a whole under lockMatcher.
+//@ func (dest *Destination) Match(s []byte) bool
+//@   property C01,C03,C18
+//@   requires wfm(dest.Matcher) && !dest.lockMatcher.held
+//@   modifies dest.lockMatcher.held
+//@   ensures[filter]   result == matchSpec(dest.Matcher, s[..])
+//@   ensures[unlocked] !dest.lockMatcher.held
